@@ -159,8 +159,40 @@ def check_2d(ctx, mem, etag, N, M, stride, log):
     ctx.validate(k, [[b0, pv, a, b] for a in (0, N - 1, N, N * M - 1, (1 << 64) - 1) for b in (0, M - 1, M, 255)], base=b0 if mem != "app" else None)
 
 
+ENUM_SRC = """
+enum EL : long { EL0 = 0 };     // underlying type whose size depends on the ABI (4 bytes in the LP32 guest)
+enum EI : int { EI0 = 0 };
+K uint64_t k_sbx_enuml(uint64_t base, uint64_t p, int n) { S::g_base = base; auto t = mk_tainted<EL(*)[4], S>(p); auto& e = (*t)[n];
+  return (uint64_t)(uintptr_t)&reinterpret_cast<const volatile char&>(e) - p; }
+K uint64_t k_sbx_enumi(uint64_t base, uint64_t p, int n) { S::g_base = base; auto t = mk_tainted<EI(*)[4], S>(p); auto& e = (*t)[n];
+  return (uint64_t)(uintptr_t)&reinterpret_cast<const volatile char&>(e) - p; }
+"""
+
+
+def check_enum(ctx, k, known_id=None):
+    base = ctx.sandbox_base(32)
+    size = 1 << 32
+    p = ctx.sym("p", 64)
+    ctx.assume(z3.UGE(p, base), z3.ULE(p - base, BV(size - 32, 64)))
+    n = ctx.sym("n", 32)
+    Nn = sext(n, 128)
+    inb = z3.And(Nn >= 0, Nn < 4)
+    paths = ctx.run(k, [base, p, n])
+    for q in paths:
+        if q.status == "ret":
+            known = [(known_id, z3.And(inb, zext(q.ret, 128) == Nn * 8))] if known_id else []
+            ctx.require(q, z3.And(inb, zext(q.ret, 128) == Nn * 4), "designates exactly element i under the sandbox's layout (4-byte elements)", known=known)
+        elif q.status == "abort":
+            ctx.require(q, z3.Not(inb), "aborts only when the index is out of range")
+    ctx.only(paths, "ret", "abort")
+    ctx.expect(paths, ret=1, abort=1)
+
+
 def jobs(tier, seed):
     out = []
+    out.append(Job("C17_B32_enum", C.PRELUDE + "using S = B32;\n" + ENUM_SRC,
+                   [dict(name="B32 sbx (enum : long)[4]", fn=check_enum, kw=dict(k="k_sbx_enuml", known_id="C17-enum-abi-stride")),
+                    dict(name="B32 sbx (enum : int)[4]", fn=check_enum, kw=dict(k="k_sbx_enumi"))], flags=["-fno-exceptions"], native=False))
     backends = [("B32", 32)] + ([("B16", 16)] if tier == "thorough" else [])
     lens = [1, 2, 3, 7, 16] if tier == "thorough" else [1, 3, 16]
     idxs = (list(IDX) + list(WRAPPED)) if tier == "thorough" else ["schar", "uchar", "int", "uint", "long", "ullong", "tint"]
